@@ -46,6 +46,18 @@ CLAIMED = {
              'order. Default backend only (torch/jax/fortran input helpers are out of reach of the quick tier). Known '
              'finding KF-C08-input-depth2 (loud).',
         ref='§3 C08'),
+    'C09': dict(
+        technique=TECH + 'recorded evaluation history of a STATEFUL generated function (ring buffers) vs the delay-line '
+                         'recurrence over the recorded trajectory',
+        text='Circuits with any mixture of delayed (round(d/dt) in 2..12, off-grid delays) and undelayed edges, several '
+             'delays per source and several edges per target, scalar nodes and Population/Connectivity (matrix and '
+             'scalar weights), vectorize on/off, matrix_sparseness knob randomised, are run with euler (and heun) or '
+             'stepped by the harness through the function and argument tuple from get_run_func; every RHS evaluation is '
+             'recorded and at EVERY evaluation the input each unit received (recovered exactly) must equal '
+             'sum_e w_e * y_src[k - n_e] taken from the recorded trajectory, zero before the start.',
+        note='Trusted: exact invertibility of the library operators; n_e = int(np.round(d/dt)). Known findings: heun '
+             'double roll, two delayed Connectivity objects per source.',
+        ref='§3 C09'),
     'C13': dict(
         technique=TECH + 'interleaved user workflows in one process vs each workflow alone in a pristine fork '
                          '(refinement), with API/interrupt/I-O/RHS faults and cache wipes',
@@ -87,7 +99,7 @@ CLAIMED = {
 }
 
 _P = 'check under construction in this session (planned as claimed, see DESIGN §0/§3); not decided yet'
-PENDING = {k: _P for k in ['C09', 'C10', 'C11', 'C15']}
+PENDING = {k: _P for k in ['C10', 'C11', 'C15']}
 
 NA = {
     'C01': 'pure function of (model, state, parameters): no schedule, clock, fault or history in the statement; '
